@@ -15,12 +15,13 @@ must keep building when a proof breaks).
       C20-jump-out-of-stmt-expr; a jump *into* a statement expression is excluded with it);
     - `return` occurs only in the region of the function body, and the long-double-ness of the
       returned value is that of the function's return type;
-    - struct/union arguments of calls have at least one byte (outside: known finding
-      C20-empty-struct-arg); a call of the builtin `alloca` is not of type long double and neither is its argument;
-    - the labels of the node are spelled `.…`.
+    - the sizes of struct/union arguments of calls are not negative; a call of the builtin `alloca` is
+      not of type long double and neither is its argument;
+    - the labels the node defines are parser labels (`userLabel`), its jump targets are spelled `.…`.
 * `labelNames`, `labelsDistinct` — the labels a piece of code defines, and the decidable statement
   that they are pairwise distinct, distinct from the function's return label and not of the shape
-  `.L.return.*` (proved for generated code in Lemmas/C20Fresh.lean from the monotone label counter).
+  `.L.return.*`.  Lemmas/C20Fresh.lean proves it for generated code from the monotone label counter
+  `count()` and `userDistinct` (the labels that come from the parser are emitted once each).
 * `verifyL` — `Effect.verify` without the range check (`rsp ≤ 0`, `0 ≤ x87 ≤ 8`): the label-height
   discipline alone.  `Effect.checkBody ls = ok` implies `verifyL (inferN 3 …) (steps ls) (some 0) = ok`.
 -/
@@ -36,6 +37,16 @@ def startsDot (l : String) : Bool :=
   match l.toList with
   | '.' :: _ => true
   | _ => false
+
+/-- the spellings of the labels `gen_expr`/`gen_stmt` make up from `count()`: `.L.else.7`, `.L.end.7`, … -/
+def ctrTags : List String := [".L.else.", ".L.end.", ".L.false.", ".L.true.", ".L.begin."]
+
+/-- spelled like a label made up from `count()` -/
+def isCtr (l : String) : Bool := ctrTags.any (fun t => t.toList.isPrefixOf l.toList)
+
+/-- a label the parser hands to the code generator (`new_unique_name`: `.L..12`): it starts with `.`, is not
+    spelled like a label of `count()` and not like `.L.return.*` -/
+def userLabel (l : String) : Bool := startsDot l && !isCtr l && !isReturnLabel l
 
 mutual
 /-- the labels a statement defines in its region (not inside nested statement expressions) -/
@@ -107,14 +118,15 @@ def flowS (R : List String) (rl : Option Bool) : Node → Bool
   | .if_ _ c t e => flowE c && flowS R rl t && (isNull e || flowS R rl e)
   | .for_ _ init c inc t brk cont =>
     (isNull init || flowS R rl init) && (isNull c || flowE c) && (isNull inc || flowE inc) && flowS R rl t
-      && rlabel R (cstr brk) && startsDot (cstr cont)
-  | .do_ _ t c brk cont => flowS R rl t && flowE c && startsDot (cstr brk) && startsDot (cstr cont)
-  | .switch_ _ c t brk cases dflt => flowE c && flowS R rl t && rlabel R (cstr brk) && casesOK R cases dflt
-  | .case_ _ _ _ lbl lhs => startsDot (cstr lbl) && flowS R rl lhs
+      && rlabel R (cstr brk) && userLabel (cstr brk) && userLabel (cstr cont)
+  | .do_ _ t c brk cont => flowS R rl t && flowE c && userLabel (cstr brk) && userLabel (cstr cont)
+  | .switch_ _ c t brk cases dflt => flowE c && flowS R rl t && rlabel R (cstr brk) && userLabel (cstr brk)
+      && casesOK R cases dflt
+  | .case_ _ _ _ lbl lhs => userLabel (cstr lbl) && flowS R rl lhs
   | .block _ body => flowSs R rl body
   | .goto_ _ _ ul => rlabel R (cstr ul)
   | .gotoExpr _ lhs => flowE lhs
-  | .label _ _ ul lhs => startsDot (cstr ul) && flowS R rl lhs
+  | .label _ _ ul lhs => userLabel (cstr ul) && flowS R rl lhs
   | .ret _ lhs => retOK rl lhs && (isNull lhs || flowE lhs)
   | .exprStmt _ lhs => flowE lhs
   | .asm_ _ _ => true
@@ -143,6 +155,10 @@ def labelNames : List Step → List String
   | [] => []
   | .label l :: r => l :: labelNames r
   | _ :: r => labelNames r
+
+/-- the labels of the code that come from the parser (`userLabel`) are pairwise distinct -/
+def userDistinct (ls : List Asm.Line) : Bool :=
+  decide ((labelNames (ls.flatMap classify)).filter userLabel).Nodup
 
 /-- the labels the code defines are pairwise distinct, distinct from `ret`, none spelled `.L.return.*` -/
 def labelsDistinct (ret : String) (ls : List Asm.Line) : Bool :=
@@ -181,5 +197,89 @@ def verifyL (h : Labelling) : List Step → Option H → Except String Unit
 /-- the whole-function statement of the label-height theorems: some labelling passes `verifyL` -/
 def FnBalanced (ls : List Asm.Line) : Prop :=
   ∃ h : Labelling, verifyL h (steps ls) (some H.zero) = .ok ()
+
+
+/-! ## does control fall out of the end? -/
+
+/-- whether control can fall out of the end of a skeleton that is entered by falling in (`live`):
+    after `jmp`/`ret` it cannot, at a label it can again -/
+def liveEnd : List Step → Bool → Bool
+  | [], live => live
+  | .delta _ :: r, live => liveEnd r live
+  | .cond _ :: r, live => liveEnd r live
+  | .bad _ :: r, live => liveEnd r live
+  | .jump _ :: r, _ => liveEnd r false
+  | .leave :: r, _ => liveEnd r false
+  | .label _ :: r, _ => liveEnd r true
+
+/-- the code does not end in a jump away: control falls out of its end -/
+def fallsThrough (ls : List Asm.Line) : Bool := liveEnd (steps ls) true
+
+/-! ## known finding C20-x87-depth-overflow: how many x87 registers an evaluation needs -/
+
+/-- 1 for a long double value -/
+def ldVal (t : Option Ty) : Nat := if isLD t then 1 else 0
+
+/-- registers while a long double value is tested against zero or converted: the value and one more -/
+def ldTmp (t : Option Ty) : Nat := if isLD t then 2 else 0
+
+/-- registers while a long double value is converted: the value itself; one more when the target is
+    `_Bool` or an integer (`fldz` / `flds` of 2^63 in the cast strings) -/
+def ldCast (src dst : Option Ty) : Nat :=
+  if isLD src then
+    (match dst with
+     | some t => if isFlonum t then 1 else 2
+     | none => 2)
+  else 0
+
+mutual
+/-- the number of x87 registers the code of `gen_expr(n)` occupies at its peak, above the registers in
+    use when it starts, following the code generator's order of evaluation (a long double binary
+    operator keeps its left operand on the x87 stack while the right one is evaluated; a test against
+    zero or a conversion of a long double may load one more register) -/
+def x87Need : Node → Nat
+  | .num i .. | .var i _ => ldVal i.ty
+  | .nullExpr _ | .memzero .. | .labelVal .. => 0
+  | .neg _ a | .bitnot _ a => x87Need a
+  | .not _ a => max (x87Need a) (ldTmp a.ty?)
+  | .cast i a => max (x87Need a) (max (ldCast a.ty? i.ty) (ldVal i.ty))
+  | .deref i a => max (x87Need a) (ldVal i.ty)
+  | .member i a _ => max (x87NeedA a) (ldVal i.ty)
+  | .addr _ a => x87NeedA a
+  | .assign _ a b => max (x87NeedA a) (x87Need b)
+  | .comma _ a b | .exch _ a b => max (x87Need a) (x87Need b)
+  | .binop _ _ a b =>
+    if isLD a.ty? then max (x87Need a) (1 + x87Need b) else max (x87Need a) (x87Need b)
+  | .logand _ a b | .logor _ a b =>
+    max (max (x87Need a) (ldTmp a.ty?)) (max (x87Need b) (ldTmp b.ty?))
+  | .cond _ c t e => max (max (x87Need c) (ldTmp c.ty?)) (max (x87Need t) (x87Need e))
+  | .cas _ a b c => max (x87Need a) (max (x87Need b) (x87Need c))
+  | .funcall _ f _ _ args => max (x87Need f) (x87NeedL args)
+  | .stmtExpr _ body => x87NeedL body
+  | .if_ _ c t e => max (max (x87Need c) (ldTmp c.ty?)) (max (x87Need t) (x87Need e))
+  | .for_ _ init c inc t _ _ =>
+    max (max (x87Need init) (max (x87Need c) (ldTmp c.ty?))) (max (x87Need inc) (x87Need t))
+  | .do_ _ t c _ _ => max (x87Need t) (max (x87Need c) (ldTmp c.ty?))
+  | .switch_ _ c t _ _ _ => max (x87Need c) (x87Need t)
+  | .case_ _ _ _ _ a | .label _ _ _ a | .ret _ a | .gotoExpr _ a | .exprStmt _ a => x87Need a
+  | .block _ body => x87NeedL body
+  | .null | .goto_ .. | .asm_ .. | .vlaPtr .. => 0
+/-- the same for `gen_addr(n)` -/
+def x87NeedA : Node → Nat
+  | .deref _ a => x87Need a
+  | .comma _ a b => max (x87Need a) (x87NeedA b)
+  | .member _ a _ => x87NeedA a
+  | .assign _ a b => max (x87NeedA a) (x87Need b)
+  | .cond _ c t e => max (max (x87Need c) (ldTmp c.ty?)) (max (x87Need t) (x87Need e))
+  | .funcall _ f _ _ args => max (x87Need f) (x87NeedL args)
+  | _ => 0
+def x87NeedL : NodeList → Nat
+  | .nil => 0
+  | .cons n rest => max (x87Need n) (x87NeedL rest)
+end
+
+/-- the region of known finding C20-x87-depth-overflow: the evaluation of some expression of the tree
+    keeps more long double values on the x87 register stack than it has registers -/
+def x87Deep (n : Node) : Bool := decide (8 < x87Need n)
 
 end ChibiVerif.C20Scope
